@@ -76,13 +76,13 @@ def cases(tier, seed):
                 keep.append(a)
             else:
                 rest.append(a)
-        A = keep + rest[:max(0, 1500 - len(keep))]
+        A = keep + rest[:max(0, 8000 - len(keep))]
     for i, (N1, R1, N2, R2) in enumerate(A):
         for op in (('add', 'sub', 'mul') if tier == 'thorough' else (('add', 'sub', 'mul')[i % 3],)):
             cs.append({'gen': 'binop', 'op': op, 'N1': N1, 'R1': R1, 'N2': N2, 'R2': R2, 'dtype': DT[i % 5] if i % 7 else 'f64',
                        'vals': 'gauss' if i % 4 == 3 else 'int'})
     # B: random larger structures
-    nB = 300 if tier == 'quick' else 6000
+    nB = 2000 if tier == 'quick' else 30000
     for i in range(nB):
         d = rng.randint(2, 5)
         N1 = gens.modes(rng, d, (1, 2, 3, 4, 5, 7))
@@ -111,7 +111,7 @@ def cases(tier, seed):
                         continue
                     cs.append({'gen': 'scalar', 'op': op, 'N': N, 'R': R, 'kind': sk, 'dtype': dt, 'vals': 'int'})
     # D: unary, kron
-    for i in range(60 if tier == 'quick' else 1200):
+    for i in range(400 if tier == 'quick' else 6000):
         d1, d2 = rng.randint(1, 3), rng.randint(1, 3)
         N1, N2 = gens.modes(rng, d1, (1, 2, 3, 4)), gens.modes(rng, d2, (1, 2, 3, 5))
         c = {'gen': 'unary', 'op': rng.choice(['neg', 'pos', 'pow', 'kron', 'pow_none', 'rpow_none', 'kron_none_l', 'kron_none_r']),
@@ -122,13 +122,13 @@ def cases(tier, seed):
         cs.append({'gen': 'unary', 'op': op, 'N1': [2, 3], 'R1': [1, 2, 1], 'N2': [4], 'R2': [1, 1], 'dtype': 'f64', 'vals': 'int', 'ttm': False})
     # E: full()
     for d in range(1, 7):
-        for rep in range(4 if tier == 'quick' else 60):
+        for rep in range(20 if tier == 'quick' else 300):
             N = gens.modes(rng, d, (1, 2, 3, 4), distinct=False)
             cs.append({'gen': 'full', 'N': N, 'R': gens.rank_profile(rng, d, 'rand', 3), 'dtype': rng.choice(DT), 'vals': rng.choice(['int', 'gauss'])})
     for N in ([1], [2], [1, 1], [1, 1, 1], [1, 2, 1]):
         cs.append({'gen': 'full', 'N': N, 'R': [1] * (len(N) + 1), 'dtype': 'f64', 'vals': 'int'})
     # F: factories
-    for i in range(40 if tier == 'quick' else 400):
+    for i in range(240 if tier == 'quick' else 2400):
         d = rng.randint(1, 4)
         cs.append({'gen': 'factory', 'which': ['ones', 'zeros', 'eye', 'rank1TT', 'meshgrid', 'ones_ttm', 'zeros_ttm', 'rank1TTM'][i % 8],
                    'N': gens.modes(rng, d, (1, 2, 3, 4), distinct=False), 'M': gens.modes(rng, d, (1, 2, 3), distinct=False),
